@@ -10,6 +10,7 @@ CLAIMED = {
  "C01": ("E1", "Every program of the bounded families is formatted under every listed configuration at every column width; each distinct output is re-parsed with the configured syntax and re-lexed by an independent lexer. Exhaustive within the bounds, no sampling.", NOTE, TECH + ", re-parse oracle", "6/C01"),
  "C02": ("E1", "As C01, with the checker's own semantic normal form (literal values decoded, parentheses erased after parsing, truncation markers kept) and the independent token sequence compared between input and every distinct output.", NOTE, TECH + ", normal-form + token-sequence oracle", "6/C02"),
  "C03": ("E1", "One comment of each kind in every token gap of every catalogue statement (pairs of gaps in the thorough tier), every width, call_parentheses x collapse; comment multiset (kind, level, normalised text) and code token sequence compared between input and every distinct output.", NOTE, TECH + ", comment census oracle", "6/C03"),
+ "C04": ("E1", "Every string body over the 18-symbol escape alphabet up to the length bound (quick: <=3, plus <=4 over the 10-symbol core; thorough: <=4 / <=6) in every quote form and string position, under 4 quote styles x 2 line endings x syntaxes, and ~170 numeric spellings x 9 contexts x all syntaxes: the decoded VALUE of every literal token (own decoder, from the reference manual) must be unchanged.", NOTE, TECH + ", literal-value oracle (own decoders)", "6/C04"),
  "C05": ("E1", "Every expression of the bounded families (all operator pairs, parenthesis levels, contexts; depth 3 on class representatives in the thorough tier) is formatted at EVERY column width and its operator tree is compared with the generator's own tree (own precedence parser); exhaustive within the stated bounds.", NOTE, TECH + ", O-TREE oracle against the generator's own precedence parser", "6/C05"),
  "C06": ("E1", "Every state reached by the exploration (program, configuration, width) is formatted a second time with the same configuration and must be a fixpoint, byte for byte.", NOTE, TECH + ", second transition must be a self-loop", "6/C06"),
  "C07": ("E1", "Every transition runs under catch_unwind with a wall-clock bound; outcome must be Ok for text the parser accepts and ParseError for text it rejects; panics, other errors, false successes and blow-ups are violations.", NOTE, TECH + ", outcome oracle on valid and invalid inputs", "6/C07"),
